@@ -6,6 +6,7 @@ import (
 	"sort"
 	"strings"
 	"testing"
+	"verifharness/icose"
 
 	"github.com/veraison/eat"
 	"github.com/veraison/psatoken"
@@ -113,6 +114,35 @@ func c13Claims(c psatoken.IClaims, m *MClaims) string {
 	if got[EMissOpt] || got[ENotInProfile] {
 		return fmt.Sprintf("Validate() failed with an error classified as ignorable: %v", verr)
 	}
+	// the same verdict travels through every validating entry point: the
+	// error each of them returns for this invalid set is still classifiable
+	ev := &psatoken.Evidence{}
+	evHeld := &psatoken.Evidence{Claims: c}
+	kp := keyFor(icose.EdDSA, 0)
+	gates := []struct {
+		name string
+		call func() error
+	}{
+		{"ValidateAndEncodeClaimsToCBOR", func() error { _, e := psatoken.ValidateAndEncodeClaimsToCBOR(c); return e }},
+		{"ValidateAndEncodeClaimsToJSON", func() error { _, e := psatoken.ValidateAndEncodeClaimsToJSON(c); return e }},
+		{"Evidence.SetClaims", func() error { return ev.SetClaims(c) }},
+		{"Evidence.ValidateAndSign", func() error { _, e := evHeld.ValidateAndSign(kp.Signer()); return e }},
+	}
+	for _, g := range gates {
+		gerr := g.call()
+		if gerr == nil {
+			return g.name + " succeeds on an invalid set"
+		}
+		gg := classSet(gerr)
+		if len(gg) == 0 {
+			return fmt.Sprintf("%s: validation error %q satisfies errors.Is for no sentinel class (offending classes %s; Validate() said %q)", g.name, gerr, clsSetString(off), verr)
+		}
+		for cl := range gg {
+			if !off[cl] {
+				return fmt.Sprintf("%s: error %q is classified %s; the offending claims call for one of %s", g.name, gerr, clsSetString(gg), clsSetString(off))
+			}
+		}
+	}
 	return ""
 }
 
@@ -189,7 +219,7 @@ func c13Components(c psatoken.IClaims, m *MClaims) string {
 
 func TestC13_ClaimErrors(t *testing.T) {
 	st := NewStats("C13", "TestC13_ClaimErrors", "rapid: each claim / component field x each way of being wrong, alone (exact class) and combined (class of some offending claim), on claims-sets obtained as struct literals, via the per-type CBOR unmarshal, and via setters called with invalid values; errors.Is against the five sentinels must hold for the expected class and for no other. Non-trivial = the error travels through >= 1 wrapping layer (component inside list, getter inside Validate); distinct = (route, class vector)")
-	st.Require = []string{"route=literal", "route=unmarshal", "route=setter", "single", "combined", "component-defect"}
+	st.Require = []string{"route=literal", "route=unmarshal", "route=setter", "single", "combined", "component-defect", "foreign-component"}
 	defer st.Flush(t)
 	rapid.Check(t, func(t *rapid.T) {
 		p := drawProf(t)
@@ -235,6 +265,50 @@ func TestC13_ClaimErrors(t *testing.T) {
 				cls := []string{"route=setter"}
 				if o.Claim == CSwComps {
 					cls = append(cls, "component-defect")
+					// the same list with the malformed components being of
+					// ANOTHER ISwComponent implementation (an extension's
+					// component type embedding SwComponent): a malformed
+					// component is still reported under its defect's class
+					var list []psatoken.ISwComponent
+					nilEntry := false
+					for _, mc := range o.Comps {
+						lc := libComp(mc)
+						switch {
+						case lc == nil:
+							nilEntry = true
+						case compClass(mc) != EOK:
+							list = append(list, &foreignComp{SwComponent: *lc})
+						default:
+							list = append(list, lc)
+						}
+					}
+					if !nilEntry {
+						for _, via := range []string{"setter", "add", "replace"} {
+							c2, _ := psatoken.NewClaims(p.Name())
+							var ferr error
+							switch via {
+							case "setter":
+								ferr = c2.SetSoftwareComponents(list)
+							case "add":
+								ferr = swContainerOf(c2).Add(list...)
+							default:
+								ferr = swContainerOf(c2).Replace(list)
+							}
+							if ferr == nil {
+								t.Fatalf("C13: %s accepted a list with a malformed component of a foreign type", via)
+							}
+							fgot := classSet(ferr)
+							if len(fgot) == 0 {
+								t.Fatalf("C13 violated: %s given a malformed component of another ISwComponent implementation: error %q satisfies errors.Is for no sentinel class (want %s)", via, ferr, clsSetString(allowed))
+							}
+							for cl := range fgot {
+								if !allowed[cl] {
+									t.Fatalf("C13 violated: %s given a malformed foreign component: error %q classified %s, want %s", via, ferr, clsSetString(fgot), clsSetString(allowed))
+								}
+							}
+						}
+						cls = append(cls, "foreign-component")
+					}
 				}
 				st.Case("setter|"+o.String(), cls...)
 				return
@@ -521,6 +595,12 @@ func (o *overrideClaims) GetVSI() (string, error) {
 		return "", e
 	}
 	return o.IClaims.GetVSI()
+}
+
+// foreignComp: an extension's own component type (embeds the stock one).
+type foreignComp struct {
+	psatoken.SwComponent
+	Vendor *string `cbor:"-1,keyasint,omitempty" json:"vendor,omitempty"`
 }
 
 // overrideComp does the same for the software component fields.
